@@ -63,11 +63,11 @@ def run_lean_unit(lines, jobs=8):
     from concurrent.futures import ThreadPoolExecutor
 
     if len(lines) < 2 * jobs:
-        return core.run_lean(lines, main="Driver/Main_Compile.lean")
+        return core.run_lean(lines)
     order = sorted(range(len(lines)), key=lambda i: -len(lines[i]))
     shards = [order[j::jobs] for j in range(jobs)]
     with ThreadPoolExecutor(jobs) as ex:
-        res = list(ex.map(lambda sh: core.run_lean([lines[i] for i in sh], main="Driver/Main_Compile.lean"), shards))
+        res = list(ex.map(lambda sh: core.run_lean([lines[i] for i in sh]), shards))
     out = [None] * len(lines)
     for sh, r in zip(shards, res):
         for i, o in zip(sh, r):
